@@ -402,6 +402,7 @@ type Layout struct {
 	Payload      func(r *rand.Rand, serial int) string
 	LeadingBlank bool // allow blank lines / comments before the first token
 	NoTrailingNL bool
+	SemiNL       float64 // probability that a written statement-terminating ';' stands on the next line (`a⏎;b`), possibly after a comment
 }
 
 func isIdentChar(c byte) bool {
@@ -591,7 +592,18 @@ func layout(in []Tok, eof Tok, r *rand.Rand, lay Layout) *Rendered {
 						semi.InFunc, semi.Ctx, semi.Depth = prev.InFunc, prev.Ctx, prev.Depth
 					}
 				}
-				if lay.Space == 2 && r.IntN(6) == 0 {
+				if prev != nil && chance(lay.SemiNL) {
+					// `a⏎;`: legal everywhere, a ';' never continues the previous statement
+					if chance(lay.Comment) {
+						write(commentGap(prev, spaces()))
+						c := Comment{Text: payload(), Off: sb.Len(), Line: line, OwnLine: false, Before: len(out.Toks)}
+						write("//" + c.Text)
+						out.Comments = append(out.Comments, c)
+					}
+					write(nl)
+					write(indent())
+					semi.NLBefore = true
+				} else if lay.Space == 2 && r.IntN(6) == 0 {
 					write(" ")
 				}
 				emitTok(semi)
